@@ -49,6 +49,8 @@ pub trait CurveLike {
     fn st_at_length(&self, l: f64) -> Option<StationObs>;
     fn st_at_fraction(&self, f: f64) -> Option<StationObs>;
     fn st_iter(&self) -> Vec<StationObs>;
+    /// the vertex iterator driven in other ways than a plain walk: (label, vertex lengths met, expected indices)
+    fn st_iter_walks(&self) -> Vec<(&'static str, Vec<f64>, Vec<usize>)>;
     fn st_front(&self) -> StationObs;
     fn st_back(&self) -> StationObs;
 }
@@ -109,6 +111,24 @@ impl CurveLike for Curve2 {
     fn st_iter(&self) -> Vec<StationObs> {
         self.iter().map(|s| obs2(&s)).collect()
     }
+    fn st_iter_walks(&self) -> Vec<(&'static str, Vec<f64>, Vec<usize>)> {
+        let n = self.count();
+        let cap = n + 4;
+        let mut out = Vec::new();
+        // two steps, then a jump, then the rest
+        let mut it = self.iter();
+        let mut a: Vec<f64> = Vec::new();
+        a.extend(it.next().map(|s| s.length_along()));
+        a.extend(it.next().map(|s| s.length_along()));
+        a.extend(it.nth(1).map(|s| s.length_along()));
+        a.extend(it.take(cap).map(|s| s.length_along()));
+        out.push(("two steps, nth(1), rest", a, (0..n).filter(|i| *i != 2).collect()));
+        out.push(("every second vertex", self.iter().step_by(2).take(cap).map(|s| s.length_along()).collect(), (0..n).step_by(2).collect()));
+        out.push(("skipping two", self.iter().skip(2).take(cap).map(|s| s.length_along()).collect(), (2..n).collect()));
+        out.push(("last only", self.iter().last().map(|s| s.length_along()).into_iter().collect(), vec![n - 1]));
+        out
+    }
+
     fn st_front(&self) -> StationObs {
         obs2(&self.at_front())
     }
@@ -142,6 +162,24 @@ impl CurveLike for Curve3 {
     fn st_iter(&self) -> Vec<StationObs> {
         self.iter().map(|s| obs3(&s)).collect()
     }
+    fn st_iter_walks(&self) -> Vec<(&'static str, Vec<f64>, Vec<usize>)> {
+        let n = self.count();
+        let cap = n + 4;
+        let mut out = Vec::new();
+        // two steps, then a jump, then the rest
+        let mut it = self.iter();
+        let mut a: Vec<f64> = Vec::new();
+        a.extend(it.next().map(|s| s.length_along()));
+        a.extend(it.next().map(|s| s.length_along()));
+        a.extend(it.nth(1).map(|s| s.length_along()));
+        a.extend(it.take(cap).map(|s| s.length_along()));
+        out.push(("two steps, nth(1), rest", a, (0..n).filter(|i| *i != 2).collect()));
+        out.push(("every second vertex", self.iter().step_by(2).take(cap).map(|s| s.length_along()).collect(), (0..n).step_by(2).collect()));
+        out.push(("skipping two", self.iter().skip(2).take(cap).map(|s| s.length_along()).collect(), (2..n).collect()));
+        out.push(("last only", self.iter().last().map(|s| s.length_along()).into_iter().collect(), vec![n - 1]));
+        out
+    }
+
     fn st_front(&self) -> StationObs {
         obs3(&self.at_front())
     }
@@ -447,6 +485,18 @@ pub fn judge_curve(c: &dyn CurveLike, ext: f64, tol: f64, case: &dyn Fn() -> Val
     }
     let defined0 = vertex_dir(&v, 0, closed, is_2d).is_some();
     let defined1 = vertex_dir(&v, n - 1, closed, is_2d).is_some();
+    // the iterator used in other ways than a plain walk still meets the vertices it should
+    match guarded(|| c.st_iter_walks()) {
+        Ok(walks) => {
+            for (label, got, want) in walks {
+                let ok = got.len() == want.len() && got.iter().zip(want.iter()).all(|(g, k)| (g - lens[*k]).abs() <= eps_l);
+                l.check("the vertex iterator stepped, skipped or advanced by nth meets the expected vertices", label, ok, case, || format!("{}: vertex lengths {:?}, expected vertices {:?} of lengths {:?}", label, got, want, lens));
+            }
+        }
+        Err(e) => {
+            l.check("the vertex iterator stepped, skipped or advanced by nth meets the expected vertices", "panic", false, case, || e.clone());
+        }
+    }
     l.check(
         "at_front/at_back equal first/last vertex stations",
         "",
